@@ -259,6 +259,7 @@ package otr3
 //@   ensures !ok ==> true
 
 //@ func (*Conversation).receiveFragment
+//@   allocates len(data) + len(beforeCtx.frag)
 //@   requires c != nil && keysNonNil(c)
 //@   modifies fragNumsOK(nil), elems(beforeCtx.frag), c.version, c.ourCurrentKey, c.theirInstanceTag, msglog(c), c.injections.messages, elems(c.injections.messages)
 //@   ensures [C14.recv.reject.noop,C06.frag.reject,C15.ignore.frag] result1 != nil ==> result0 == beforeCtx
@@ -1500,6 +1501,7 @@ package otr3
 //@   ensures !ok ==> (newPoint === nil && mpi == nil)
 //@ func ExtractMPIs
 //@   pure
+//@   allocates len(d) / 4
 //@   ensures [C17.mpis.parse] result2 ==> (nonglobal(result1) && (forall k in 0..len(result1) :: (result1[k] != nil && nonglobal(result1[k]))))
 //@ loop ExtractMPIs #0
 //@   invariant nonglobal(result) && nonglobal(current) && len(result) == int(mpiCount) && (forall k in 0..i :: (result[k] != nil && nonglobal(result[k])))
